@@ -127,7 +127,7 @@ def case_for(cid, decls, bpj, ideal=None, entities=None, c20=False, mems=None, h
         meta_c20 = f"check_c20 ds_{cid} [{'; '.join(str(a) + '%nat' for a in anch)}]"
     else:
         meta_c20 = None
-    meta = {"outputs": outs, "exposed": sorted(exposed), "entities": n, "n_inputs": len(input_vars),
+    meta = {"outputs": outs, "exposed": sorted(exposed), "entities": n, "n_inputs": len(input_vars), "input_var_ids": sorted(input_vars.values()),
             "signals": dict(ex.sig.ids), "entity_problems": ent_problems, "c20_expr": meta_c20}
     mem_problems = []
     if mems:
@@ -259,7 +259,7 @@ def debug_case(cid, defs, n):
     return outs[0] if outs and outs[0] else text[-3000:]
 
 
-def search_failing_input(cid, defs, n, n_inputs, rng, extra_values=()):
+def search_failing_input(cid, defs, n, n_inputs, rng, extra_values=(), var_ids=None):
     """concrete evaluation of the blueprint (Circuit.run at V=Z) and of the source semantics on
     boundary and random valuations; returns (env list, [(observed, expected)...]) or None"""
     vals = list(dict.fromkeys(list(extra_values) + BOUNDARY))
@@ -276,10 +276,21 @@ def search_failing_input(cid, defs, n, n_inputs, rng, extra_values=()):
             envs.append([rng.randint(-(1 << 31), (1 << 31) - 1) for _ in range(n_inputs)])
         for _ in range(100):
             envs.append([rng.randint(-20, 20) for _ in range(n_inputs)])
+    if var_ids and var_ids != list(range(1, len(var_ids) + 1)):
+        # variable v is read at position v - 1 of the list (env_of): spread the values over the variable ids
+        def spread(e):
+            full = [0] * max(var_ids)
+            for v, x in zip(var_ids, e):
+                full[v - 1] = x
+            return full
+        envs = [spread(e) for e in envs]
     lst = "[" + "; ".join("[" + "; ".join(fa.zc(v) for v in e) + "]" for e in envs) + "]"
     # a circuit that never settles (a feedback loop created by a wiring defect) shows different values at
     # different ticks: look at the tick by which every feed-forward circuit of this size has settled, and later
     for ticks in (n + 3, 2 * n + 8):
+        if ticks != n + 3:
+            envs = envs[:150]
+            lst = "[" + "; ".join("[" + "; ".join(fa.zc(v) for v in e) + "]" for e in envs) + "]"
         expr = (
             f"map (fun e => forallb (fun p => Z.eqb (fst p) (snd p)) "
             f"(conc_progb bp_{cid} {ticks}%nat ds_{cid} qs_{cid} rs_{cid} bqs_{cid} (env_of e))) {lst}"
